@@ -192,4 +192,18 @@ CLAIMED = {
                 "limits off data points.",
         "technique": "property-based testing: metamorphic unit-conversion / scaling relations over all characterisation entry points",
     },
+    "C07": {
+        "text": "Hypothesis-generated point / model / metadata-only isotherms in all unit configurations with metadata drawn "
+                "from each format's value domain: export + import through CSV, Excel and AIF (string and file targets) must "
+                "preserve class, material and its properties, adsorbate, temperature, the 7 unit labels, every column to 8 "
+                "decimals, branch marks and row order, model name / parameters / ranges / rmse, metadata value and type, and "
+                "== where the content is type-identical. Separate checks draw one value OUTSIDE the domain: the result must be "
+                "a pyGAPS error or an exact round trip, never a silent change. The thorough tier adds an atheris / libFuzzer "
+                "campaign on one-entry CSV round trips with the same oracle (hypothesis fuzz_one_input as mutator).",
+        "note": "Open findings KF-C07-11..21 (values outside the formats' domains silently retyped / stripped / reordered, AIF "
+                "typed keys, Excel int->float and xlwt bare exceptions) are excluded by narrow per-format predicates and "
+                "counted; -0.0 and NaN in data are not generated; the atheris campaign is counted inconclusive if the wheel is "
+                "not importable.",
+        "technique": "property-based testing: per-format round-trip oracle with in-domain / out-of-domain value generators; coverage-guided fuzzing (atheris) of the CSV metadata codec in the thorough tier",
+    },
 }
